@@ -477,7 +477,7 @@ func (se *session) withTx(f func(tx *Tx) error) error {
 
 func (se *session) txControl(stmt Stmt) (string, error, bool) {
 	db := se.srv.DB
-	switch stmt.(type) {
+	switch st := stmt.(type) {
 	case StmtBegin:
 		db.mu.Lock()
 		if se.tx == nil {
@@ -508,6 +508,42 @@ func (se *session) txControl(stmt Stmt) (string, error, bool) {
 		se.failed = false
 		db.mu.Unlock()
 		return "ROLLBACK", nil, true
+	case StmtSavepoint:
+		db.mu.Lock()
+		defer db.mu.Unlock()
+		if se.tx == nil {
+			return "", pgErr("25P01", "SAVEPOINT can only be used in transaction blocks"), true
+		}
+		if se.failed {
+			return "", pgErr("25P02", "current transaction is aborted, commands ignored until end of transaction block"), true
+		}
+		se.tx.savepoint(st.Name)
+		return "SAVEPOINT", nil, true
+	case StmtRollbackTo:
+		db.mu.Lock()
+		defer db.mu.Unlock()
+		if se.tx == nil {
+			return "", pgErr("25P01", "ROLLBACK TO SAVEPOINT can only be used in transaction blocks"), true
+		}
+		if !se.tx.rollbackTo(st.Name) {
+			return "", pgErr("3B001", "savepoint %q does not exist", st.Name), true
+		}
+		// rolling back to a savepoint ends the aborted state
+		se.failed = false
+		return "ROLLBACK", nil, true
+	case StmtRelease:
+		db.mu.Lock()
+		defer db.mu.Unlock()
+		if se.tx == nil {
+			return "", pgErr("25P01", "RELEASE SAVEPOINT can only be used in transaction blocks"), true
+		}
+		if se.failed {
+			return "", pgErr("25P02", "current transaction is aborted, commands ignored until end of transaction block"), true
+		}
+		if !se.tx.release(st.Name) {
+			return "", pgErr("3B001", "savepoint %q does not exist", st.Name), true
+		}
+		return "RELEASE", nil, true
 	}
 	return "", nil, false
 }
